@@ -13,6 +13,9 @@
       posted) or the pending time has reached the timeout (then exactly one
       block request for that height goes to the peer it came from, provided
       the height is still ahead of the node's, and the entry is dropped);
+      the node looks at the pool when the block arrives and at every
+      iteration, and what it has seen at one of these looks stays available
+      to that block even if it leaves the pool afterwards;
     - a block whose header hash was already received is ignored. *)
 From Coq Require Import List ZArith NArith Bool.
 From C33 Require Import C33.Model C34.Model.
@@ -57,7 +60,7 @@ Fixpoint all_avail (fuel : nat) (avail : list ptx) (txs : list txid) : bool :=
 Definition block_avail (avail : list ptx) (b : oblock) : bool :=
   let rest := tl (ob_txs b) in all_avail (length rest) avail rest.
 
-Record waiting := mkWait { wt_from : N; wt_pub : N; wt_ts : Z; wt_blk : oblock }.
+Record waiting := mkWait { wt_from : N; wt_pub : N; wt_ts : Z; wt_blk : oblock; wt_have : list ptx }.
 
 Record sstate := mkSS {
   ss_seen : list N;          (* header hashes received as light blocks *)
@@ -75,13 +78,14 @@ Fixpoint spec_scan (avail : list ptx) (now timeout height : Z) (l : list waiting
   | w :: tl =>
       match spec_scan avail now timeout height tl with
       | (keep, posts, msgs) =>
-          if block_avail avail (wt_blk w)
+          let have := wt_have w ++ avail in
+          if block_avail have (wt_blk w)
           then (keep, Post (wt_pub w) (full_block (wt_blk w)) :: posts, msgs)
           else if timeout <=? Z.quot (now - wt_ts w) 1000000
                then (keep, posts,
                      if height <? ob_height (wt_blk w)
                      then Req (wt_from w) (ob_height (wt_blk w)) :: msgs else msgs)
-               else (w :: keep, posts, msgs)
+               else (mkWait (wt_from w) (wt_pub w) (wt_ts w) (wt_blk w) have :: keep, posts, msgs)
       end
   end.
 
@@ -104,7 +108,7 @@ Definition spec_step (hs : txid -> N) (timeout : Z) (s : sstate) (ev : sevent)
         let seen := ob_hash b :: ss_seen s in
         if block_avail (ss_avail s) b
         then (mkSS seen (ss_wait s) (ss_avail s) (ss_height s), [Post pub (full_block b)], [])
-        else (mkSS seen (ss_wait s ++ [mkWait from pub now b]) (ss_avail s) (ss_height s), [], [])
+        else (mkSS seen (ss_wait s ++ [mkWait from pub now b (ss_avail s)]) (ss_avail s) (ss_height s), [], [])
   | SFull pub b => (s, [Post pub (full_block b)], [])
   | SArrive t accepted =>
       if accepted then (mkSS (ss_seen s) (ss_wait s) (ss_avail s ++ [t]) (ss_height s), [], [])
